@@ -3,7 +3,7 @@ use std::fmt;
 use crate::compiler::codes;
 use crate::compiler::state::{TypeInfo, TypeState};
 use crate::compiler::{
-    Context, Expression, TypeDef,
+    Context, Expression, ExpressionError, TypeDef,
     expression::{self, Expr, Resolved},
     parser::{Node, ast},
     value::{ValueError, VrlValueArithmetic},
@@ -128,7 +128,16 @@ impl Expression for Op {
         use ast::Opcode::{Add, And, Div, Eq, Err, Ge, Gt, Le, Lt, Merge, Mul, Ne, Or, Sub};
 
         match self.opcode {
-            Err => return self.lhs.resolve(ctx).or_else(|_| self.rhs.resolve(ctx)),
+            Err => {
+                return match self.lhs.resolve(ctx) {
+                    // `abort` and `return` are not errors: they cannot be coalesced
+                    err @ Result::Err(
+                        ExpressionError::Abort { .. } | ExpressionError::Return { .. },
+                    ) => err,
+                    Result::Err(_) => self.rhs.resolve(ctx),
+                    ok => ok,
+                };
+            }
             Or => {
                 return self
                     .lhs
